@@ -446,5 +446,35 @@ def _check_inputs(self, case, raw):
 ScriptTree.check_inputs = _check_inputs
 
 
+class DeclaredStepOutputs(Bounded):
+    """build_step() with a list of output names and a `type` given once, per output, or as a list of another length:
+    every declared name becomes an output of the step (in order), or the script is refused -- a name is never dropped
+    silently."""
+    native_chunk = 1
+    target = 'bfg9000/builtins/command.py::build_step'
+    properties = ('C03',)
+    reason = 'exec() of script text and the builtin layer: runtime contract only'
+    TYPES = {'one-for-all': 'generic_file', 'per-output': '[generic_file, header_file, generic_file]', 'none': 'None',
+             'too-few': '[generic_file, generic_file]', 'too-many': '[generic_file] * 4', 'single-in-a-list': '[generic_file]'}
+
+    def native_inputs(self, case, alphabet, maxlen, rng, extra=0):
+        for k in self.TYPES:
+            yield {'type': k}
+
+    def native_check(self, case, raw):
+        names = ['t1.txt', 'sub/t2.h', 't3.txt']
+        script = ("project('p')\nouts = build_step(%r, type=%s, cmd=['touch'] + %r)\n"
+                  "env.trace.append(('outs', [o.path.suffix for o in outs]))\n" % (names, self.TYPES[raw['type']], names))
+        trace = run_configure({'build.bfg': script}, [])
+        if any(t[0] == 'FAILED' for t in trace):
+            if raw['type'] in ('one-for-all', 'per-output', 'none'):
+                return self.fail(case, raw, 'well_formed_step_is_accepted', error=[t[1] for t in trace if t[0] == 'FAILED'][0][-300:])
+            return True
+        got = [t[1] for t in trace if t[0] == 'outs']
+        if got != [names]:
+            return self.fail(case, raw, 'every_declared_output_is_an_output_of_the_step', declared=names, got=got)
+        return True
+
+
 def registry():
-    return [AddUserArgument(), ScriptGlobals(), UserArguments(), PathStack(), ScriptTree()]
+    return [AddUserArgument(), ScriptGlobals(), UserArguments(), PathStack(), ScriptTree(), DeclaredStepOutputs()]
